@@ -224,6 +224,57 @@ def xml_nil(sx, p):
     return sx.And(nil, not nillable, is_client_validation_fault(out.fault))
 
 
+NULL_GRID = [('Integer', Integer, True), ('Mandatory.Integer', M.Integer, False),
+             ('Unicode(nillable=False)', Unicode(nillable=False), False),
+             ("Unicode(values=['a','b'])", Unicode(values=['a', 'b']), True),
+             ('Integer(values=[1,2])', Integer(values=[1, 2]), True),
+             ("Unicode(values=['a'],nillable=False)", Unicode(values=['a'], nillable=False), False),
+             ('Integer(ge=1,le=9)', Integer(ge=1, le=9), True), ("Unicode(pattern='a+',min_len=1)", Unicode(pattern='a+', min_len=1), True)]
+NULL_HOLDERS = {}
+
+
+def _null_holder(i):
+    if i not in NULL_HOLDERS:
+        class Holder(ComplexModel):
+            __namespace__ = 'tns'
+            __type_name__ = 'NullHolder%d' % i
+            _type_info = [('x', NULL_GRID[i][1]), ('xs', Array(NULL_GRID[i][1])), ('y', Unicode)]
+        NULL_HOLDERS[i] = Holder
+    return NULL_HOLDERS[i]
+
+
+@harness('C05', params=[(i, pos, fam) for i in range(len(NULL_GRID)) for pos in ('member', 'array item') for fam in ('json', 'xml')],
+         label=lambda p: '%s %s %s' % (NULL_GRID[p[0]][0], p[1], p[2]),
+         functions=['spyne.protocol.dictdoc.hier.HierDictDocument._from_dict_value', 'spyne.protocol.xml.XmlDocument.from_element',
+                    'spyne.model._base.SimpleModel.validate_native', 'spyne.model._base.ModelBase.validate_native'],
+         bounds={'value': 'an explicit null (JSON null / xsi:nil="true") for a member or an array item of every listed type; '
+                          'the types combine nillability with enumerations, ranges, patterns and lengths'})
+def explicit_null(sx, p):
+    """an explicit null is accepted iff the type is nillable - whatever other constraints (values, range, pattern,
+    length) the type declares - and the two protocol families agree"""
+    i, pos, fam = p
+    name, T, nillable = NULL_GRID[i]
+    H = _null_holder(i)
+    if fam == 'json':
+        doc = {'y': 's'}
+        if pos == 'member':
+            doc['x'] = None
+        else:
+            doc['xs'] = [None]
+        out = run_soft(lambda: JSON._doc_to_object(CTX, H, doc, JSON.validator))
+    else:
+        item = list(H._type_info['xs']._type_info.keys())[0]
+        nil = mk_element(sx, '{tns}x' if pos == 'member' else '{tns}%s' % item, attrib={'{%s}nil' % XSI_NS: 'true'})
+        kids = [nil] if pos == 'member' else [mk_element(sx, '{tns}xs', children=[nil])]
+        kids.append(mk_element(sx, '{tns}y', text='s'))
+        out = run_soft(lambda: XML.from_element(CTX, H, mk_element(sx, '{tns}%s' % H.get_type_name(), children=kids)))
+    sx.observe('accepted', out.accepted)
+    if out.accepted:
+        got = out.value.x if pos == 'member' else out.value.xs
+        return nillable and (got is None if pos == 'member' else got == [None])
+    return (not nillable) and is_client_validation_fault(out.fault)
+
+
 # ---------------------------------------------------------------- occurrence counts
 def _occ_class(mn, mx):
     class Holder(ComplexModel):
@@ -233,16 +284,30 @@ def _occ_class(mn, mx):
     return Holder
 
 
-OCC_GRID = [(mn, mx) for mn in (0, 1, 2) for mx in (1, 2, 3, 'unbounded') if mx == 'unbounded' or mx >= mn]
-OCC_CLASSES = {g: _occ_class(*g) for g in OCC_GRID}
+def _occ_class_inherited(mn, mx):
+    class Base(ComplexModel):
+        __namespace__ = 'tns'
+        __type_name__ = 'HBase_%s_%s' % (mn, mx)
+        _type_info = [('x', Integer(min_occurs=mn, max_occurs=mx))]
+
+    class Holder(Base):
+        __namespace__ = 'tns'
+        __type_name__ = 'HSub_%s_%s' % (mn, mx)
+        _type_info = [('y', Unicode)]
+    return Holder
 
 
-@harness('C05', params=OCC_GRID, label=lambda p: 'min=%s max=%s' % p,
+OCC_GRID = [(mn, mx, w) for w in ('own', 'inherited') for mn in (0, 1, 2) for mx in (1, 2, 3, 'unbounded')
+            if mx == 'unbounded' or mx >= mn]
+OCC_CLASSES = {g: (_occ_class if g[2] == 'own' else _occ_class_inherited)(*g[:2]) for g in OCC_GRID}
+
+
+@harness('C05', params=OCC_GRID, label=lambda p: 'min=%s max=%s member=%s' % p,
          functions=['spyne.protocol.xml.XmlDocument.complex_from_element'],
-         bounds={'count': '0..max+2 occurrences (5 for unbounded), exhaustively; values symbolic'})
+         bounds={'count': '0..max+2 occurrences (5 for unbounded), exhaustively; values symbolic; the member declared on the class itself or inherited from a parent class'})
 def xml_occurs(sx, p):
     """XML: a member occurring n times is accepted <=> min_occurs <= n <= max_occurs"""
-    mn, mx = p
+    mn, mx, _where = p
     cls = OCC_CLASSES[p]
     top = 5 if mx == 'unbounded' else mx + 2
     n = sx.choose('n', list(range(0, top + 1)))
@@ -265,13 +330,13 @@ def xml_occurs(sx, p):
     return sx.And(not ok, is_client_validation_fault(out.fault))
 
 
-@harness('C05', params=OCC_GRID, label=lambda p: 'min=%s max=%s' % p,
+@harness('C05', params=OCC_GRID, label=lambda p: 'min=%s max=%s member=%s' % p,
          functions=['spyne.protocol.dictdoc.hier.HierDictDocument._doc_to_object',
                     'spyne.protocol.dictdoc._base.DictDocument._check_freq_dict'],
          bounds={'count': '0..max+2 items (5 for unbounded), exhaustively; values symbolic'})
 def json_occurs(sx, p):
     """JSON: a member given n values is accepted <=> min_occurs <= n <= max_occurs"""
-    mn, mx = p
+    mn, mx, _where = p
     cls = OCC_CLASSES[p]
     top = 5 if mx == 'unbounded' else mx + 2
     n = sx.choose('n', list(range(0, top + 1)))
